@@ -1461,8 +1461,8 @@ ALL += C19_HELPERS + [C19_EXAMINE]
 # A path built with os.path.join is the step (i, j) / the iteration index i it names.
 _NOW = "(tree_after output_dir' acts')"
 _STEP = dict(
-    _C19, pyparams=["output_dir", "input_screen", "extra_args", "batch_size"],
-    params=[("output_dir", "fs"), ("input_screen", "spath"), ("batch_size", "Z")],      # extra_args is only handed on
+    _C19, imports="Model.Orchestrate Generated.SrcOrchCmd", pyparams=["output_dir", "input_screen", "extra_args", "batch_size"],
+    params=[("output_dir", "fs"), ("input_screen", "spath"), ("extra_args", "eargs"), ("batch_size", "Z")],      # extra_args is only handed on
     returns="bool", return_state=["acts'"], predefine={"acts": "[]"}, tail_dup=True,
     vars={"acts": "list action", "experiment_name": "ename", "_": "ename",
           "current_iter_index": "Z", "current_plate_idx": "Z", "last_successful_run_meta": "opt Z", "current_screen": "opt spath",
@@ -1482,28 +1482,37 @@ _STEP = dict(
         ("get_selected_plates(os.path.join(output_dir, f'iter_{__i}'))", "!src_get_selected_plates (%s, {i})" % _NOW, "opt list Z", {"i": "Z"}),
         ("get_test_screen_from_job_output(__d)", "!src_get_test_screen_from_job_output (%s, {d})" % _NOW, "opt spath", {"d": "step"}),
         ("get_theta_and_dist_chunks(__d)", "!src_get_theta_and_dist_chunks acts' (%s, {d})" % _NOW, "step", {"d": "step"}),
+        # the dict get_theta_and_dist_chunks returns is the directory it names; its two entries are the glob patterns under it
+        ("__t['thetas']", "TGlob {t}", "tglob", {"t": "step"}),
+        ("__t['dist_chunks']", "DGlob {t}", "dglob", {"t": "step"}),
     ],
     effects=[
         ("shutil.rmtree(job_output_dir, ignore_errors=True)", "acts'", "{state} ++ [ARmTree job_output_dir']"),
         # makedirs creates one directory per missing path component
         ("os.makedirs(job_output_dir, exist_ok=True)", "acts'", "{state} ++ [AMkIter (fst job_output_dir'); AMkPlate job_output_dir']"),
-        ("run_initial_plate(output_dir=__o, screen=__s, experiment_name=experiment_name, extra_args=extra_args)",
-         "acts'", "!launch_cmd {state} {o} (Some (LInit {s}))"),
-        ("run_first_batch_plate(output_dir=__o, training_screen=__t, test_screen=__s, experiment_name=experiment_name, "
-         "extra_args=extra_args)", "acts'", "!launch_cmd {state} {o} (first_cmd {t} {s})"),
-        ("run_first_prospective_batch_plate(output_dir=__o, screen=__s, experiment_name=experiment_name, extra_args=extra_args)",
-         "acts'", "!launch_cmd {state} {o} (Some (LProsp {s}))"),
+    ],
+    # the callees are the TRANSLATED command builders (C19_RUN_* at the end of this file, Generated/SrcOrchCmd.v): which keyword
+    # gets which value is read from the call site, every argument is coerced to the builder's parameter type (a screen path
+    # that cannot be None becomes Some); Proofs/C19SourceCmd.v proves each builder equal to the launch it denotes
+    typed_effects=[
+        ("run_initial_plate(output_dir=__o, screen=__s, experiment_name=__n, extra_args=__e)",
+         "acts'", "!src_run_initial_plate {state} {o} {s} {n} {e}", {"o": "step", "s": "opt spath", "n": "ename", "e": "eargs"}),
+        ("run_first_batch_plate(output_dir=__o, training_screen=__t, test_screen=__s, experiment_name=__n, extra_args=__e)",
+         "acts'", "!src_run_first_batch_plate {state} {o} {t} {s} {n} {e}",
+         {"o": "step", "t": "opt spath", "s": "opt spath", "n": "ename", "e": "eargs"}),
+        ("run_first_prospective_batch_plate(output_dir=__o, screen=__s, experiment_name=__n, extra_args=__e)",
+         "acts'", "!src_run_first_prospective_batch_plate {state} {o} {s} {n} {e}",
+         {"o": "step", "s": "opt spath", "n": "ename", "e": "eargs"}),
+        ("run_subsequent_batch_plate(output_dir=__o, screen=__s, experiment_name=__n, extra_args=__e, thetas=__t, dist_chunks=__d, "
+         "excludes=__x)", "acts'", "!src_run_subsequent_batch_plate {state} {o} {s} {t} {d} {n} {e} {x}",
+         {"o": "step", "s": "opt spath", "n": "ename", "e": "eargs", "t": "tglob", "d": "dglob", "x": "opt list Z"}),
     ],
     # creation of the output directory itself is not modelled (Orchestrate.v header)
     ignore=["logger.info(__a)", "os.makedirs(output_dir, exist_ok=True)"],
     raises=[("Could not find test screen in {first_output_dir}", "SRaised {acts} 1")],
 )
-_RUN_NEXT = ("run_subsequent_batch_plate(output_dir=__o, screen=__s, experiment_name=experiment_name, extra_args=extra_args, "
-             "thetas=__t['thetas'], dist_chunks=__t['dist_chunks'], excludes=__x)")
-C19_RETRO = dict(_STEP, func="run_next_retrospective_step", name="src_run_next_retrospective_step",
-                 effects=_STEP["effects"] + [(_RUN_NEXT, "acts'", "!launch_cmd {state} {o} (next_cmd {s} {t} {x})")])         # screen=current_screen: Optional
-C19_PROSP = dict(_STEP, func="run_next_prospective_step", name="src_run_next_prospective_step",
-                 effects=_STEP["effects"] + [(_RUN_NEXT, "acts'", "!launch_cmd {state} {o} (next_cmd (Some {s}) {t} {x})")])  # screen=input_screen
+C19_RETRO = dict(_STEP, func="run_next_retrospective_step", name="src_run_next_retrospective_step")
+C19_PROSP = dict(_STEP, func="run_next_prospective_step", name="src_run_next_prospective_step")
 ALL += [C19_RETRO, C19_PROSP]
 # ---- C18: the randomised steps as resumption programs (Model/RandProg.v).  The translator's monad is `rprog`
 # (prog req ans (result T)): a primitive whose template contains a request is a call on the function's OWN generator argument
@@ -3266,3 +3275,97 @@ C20_CORR = dict(
     ],
 )
 ALL += [C20_PREDICT_AVG_NAN, C20_CORR]
+# ---- C19, continued: main() of nextflow/scripts/batchie.py (vocabulary: end of Model/Orchestrate.v; proofs: Proofs/C19SourceMain.v).
+# main() runs in a world `w` (no variable of the source): the output directory as it is now, the crash schedule that is left,
+# the calls made so far.  The mode dispatch, the variable run_next holding one of the two TRANSLATED functions, the while-loop
+# (on explicit fuel), the test `if not should_run_again: break` and the arguments of the call come from the translation.
+_MRES = dict(type="mres", bind="dom", ok="MOk", fold="mfold", unwrap="munwrap", bind_quote="", **{"while": "mwhile"})
+C19_MAIN = dict(
+    file="nextflow/scripts/batchie.py", out="SrcOrchMain.v", imports="Model.Orchestrate Generated.SrcOrchestrate", monad=_MRES,
+    func="main", name="src_main", pyparams=[],
+    params=[("n", "nat"), ("fuel", "nat"), ("argv", "margs"), ("extra", "eargs"), ("w", "world")],
+    returns="world", implicit_return="w", while_fuel="fuel", tail_dup_raise=True,
+    vars={"args": "margs", "remaining_args": "eargs", "run_next": "stepfn", "should_run_again": "bool"},
+    fields={"mode": ("margs", "modename", "a_mode {obj}", "field_of_the_parsed_arguments_is_never_stored {obj} {val}"),
+            "batch_size": ("margs", "Z", "a_batch_size {obj}", "field_of_the_parsed_arguments_is_never_stored {obj} {val}")},
+    eqb={"modename": "modename_eqb"},
+    prims=[
+        ("get_args()", "(argv, extra)", "(margs * eargs)"),                      # get_args() is not translated: it yields the parsed arguments
+        ("'retrospective'", "NRetrospective", "modename"),                       # the two strings argparse's `choices` admits
+        ("'prospective'", "NProspective", "modename"),
+        # a function name is the translated function (C19_RETRO / C19_PROSP)
+        ("run_next_retrospective_step", "src_run_next_retrospective_step", "stepfn"),
+        ("run_next_prospective_step", "src_run_next_prospective_step", "stepfn"),
+        ("os.path.abspath(args.outdir)", "OutDir", "opath"),                     # THE output directory of the world
+        ("os.path.abspath(args.screen)", "SInput", "spath"),                     # the screen the operator gave this invocation
+    ],
+    # one call of the function held in run_next, in the world (Orchestrate.world_call)
+    state_calls=[("__f(output_dir=__o, input_screen=__s, extra_args=__e, batch_size=__b)", ["w"],
+                  "world_call n {f} w {o} {s} {e} {b}", "bool", {"f": "stepfn", "o": "opath", "s": "spath", "e": "eargs", "b": "Z"})],
+    raises=[("Unknown mode", "MEnd IRaised w")],                                 # ValueError before any call: the world is untouched
+)
+ALL += [C19_MAIN]
+
+# ---- C19, continued: the four run_* command builders (vocabulary: end of Model/Orchestrate.v; proofs: Proofs/C19SourceCmd.v).
+# A command line is `list (option word)`: every item of the list literal is coerced to `opt word` (a literal / get_main_nf_file() /
+# the work directory are words; a screen path argument may be None; output_dir, experiment_name, the two glob patterns are
+# words by their type).  `acts` (no variable of the source) is the list of file-system actions of the calling run_next_* so far;
+# the builder returns it extended by the launch, or raises after it.
+def _lit(s):
+    assert all(c.isalnum() or c in "_-=" for c in s), s
+    return (repr(s), "WLit [%s] (* %s *)" % ("; ".join(str(ord(c)) for c in s), s), "word")
+
+
+_LITERALS = ["nextflow", "run", "--mode", "retrospective", "prospective", "next_plate", "--screen", "--training_screen",
+             "--test_screen", "--name", "--outdir", "--initialize", "true", "false", "-work-dir", "--reveal", "--thetas",
+             "--distance_matrix"]
+_OW = "opt word"
+_CMD = dict(
+    file="nextflow/scripts/batchie.py", out="SrcOrchCmd.v", imports="Model.Orchestrate", monad=_SRES,
+    returns="list action", implicit_return="acts", list_elem_type=_OW,
+    coerce=[("opt spath", _OW, "option_map WScreen {x}"), ("step", _OW, "Some (WJob {x})"), ("ename", _OW, "Some (WName {x})"),
+            ("tglob", _OW, "Some (word_of_tglob {x})"), ("dglob", _OW, "Some (word_of_dglob {x})")],
+    prims=[_lit(s) for s in _LITERALS] + [
+        ("get_main_nf_file()", "WMainNf", "word"),
+        ("os.path.join(output_dir, 'work')", "WWork output_dir'", "word"),
+        ("extra_args", "map extra_word extra_args'", "list opt word"),          # the operator's extra words, opaque
+        ("'--excludes={}'.format(','.join(__x))", "WExcludes {x}", "word", {"x": "list Z"}),
+    ],
+    typed_effects=[
+        # the f-string is evaluated before the process is started: ' '.join raises TypeError on a None item
+        ("logger.info(f\"Running command: {' '.join(__c)}\")", "acts", "!join_words {state} {c}", {"c": "list opt word"}),
+        ("subprocess.check_call(__c, cwd=get_repository_root())", "acts", "!check_call {state} {c}", {"c": "list opt word"}),
+    ],
+)
+_BUILDER_PARAMS = [("acts", "list action"), ("output_dir", "step")]
+_TAIL_PARAMS = [("experiment_name", "ename"), ("extra_args", "eargs")]
+C19_RUN_INITIAL = dict(
+    _CMD, func="run_initial_plate", name="src_run_initial_plate", pyparams=["output_dir", "screen", "experiment_name", "extra_args"],
+    params=_BUILDER_PARAMS + [("screen", "opt spath")] + _TAIL_PARAMS, vars={"cmd": "list opt word"})
+C19_RUN_FIRST = dict(
+    _CMD, func="run_first_batch_plate", name="src_run_first_batch_plate",
+    pyparams=["output_dir", "training_screen", "test_screen", "experiment_name", "extra_args"],
+    params=_BUILDER_PARAMS + [("training_screen", "opt spath"), ("test_screen", "opt spath")] + _TAIL_PARAMS, vars={"cmd": "list opt word"})
+C19_RUN_FIRST_PROSP = dict(
+    _CMD, func="run_first_prospective_batch_plate", name="src_run_first_prospective_batch_plate",
+    pyparams=["output_dir", "screen", "experiment_name", "extra_args"],
+    params=_BUILDER_PARAMS + [("screen", "opt spath")] + _TAIL_PARAMS, vars={"cmd": "list opt word"})
+C19_RUN_SUBSEQUENT = dict(
+    _CMD, func="run_subsequent_batch_plate", name="src_run_subsequent_batch_plate",
+    pyparams=["output_dir", "screen", "thetas", "dist_chunks", "experiment_name", "extra_args", "excludes"], pydefaults=["None"],
+    params=_BUILDER_PARAMS + [("screen", "opt spath"), ("thetas", "tglob"), ("dist_chunks", "dglob")] + _TAIL_PARAMS
+    + [("excludes", "opt list Z")], vars={"args": "list opt word"})
+ALL += [C19_RUN_INITIAL, C19_RUN_FIRST, C19_RUN_FIRST_PROSP, C19_RUN_SUBSEQUENT]
+
+# ---- C19, continued: dir_sort_key (the key both `sorted(..., key=dir_sort_key)` of examine use, and the index examine reads;
+# proofs: Proofs/C19SourceCmd.v).  Here a path is its NAME (list of components, each a string); the theorem ties the name
+# "…/iter_<i>" / "…/plate_<j>" to the index primitives iter_index / plate_index of C19_EXAMINE.
+C19_DIR_SORT_KEY = dict(
+    file="nextflow/scripts/batchie.py", out="SrcOrchCmd.v", imports="Model.Orchestrate", monad=_SRES,
+    func="dir_sort_key", name="src_dir_sort_key", pyparams=["x"], params=[("x", "fspath")], returns="Z", vars={},
+    prims=[("os.path.basename(__p)", "basename {p}", "str", {"p": "fspath"}),          # the last component
+           ("__s.split('_')", "split_on 95 {s}", "list str", {"s": "str"}),            # 95 = "_"
+           ("__l[1]", "!snth 1 {l}", "str", {"l": "list str"}),                        # IndexError without a second piece
+           ("int(__s)", "!int_of_str {s}", "Z", {"s": "str"})],                        # ValueError unless a decimal numeral
+)
+ALL += [C19_DIR_SORT_KEY]
